@@ -89,7 +89,13 @@ func NewAmount(f float64) (Amount, error) {
 // ToUnit converts a monetary amount counted in bitcoin base units to a
 // floating point value representing an amount of bitcoin.
 func (a Amount) ToUnit(u AmountUnit) float64 {
-	return float64(a) / math.Pow10(int(u+8))
+	exp := int(u + 8)
+	if exp < 0 {
+		// Units below the satoshi: 10^exp is not exactly representable,
+		// so dividing by it rounds twice.  Multiply by the exact 10^-exp.
+		return float64(a) * math.Pow10(-exp)
+	}
+	return float64(a) / math.Pow10(exp)
 }
 
 // ToBCH is the equivalent of calling ToUnit with AmountBCH.
